@@ -113,6 +113,7 @@ func (p *Processor[K, T]) process(isNext bool) {
 		// Nop - fallthrough
 	default:
 		// Already running
+		verifPoint("process.busy")
 		if isNext {
 			// If this is the next item, send a reset signal
 			// Use a select in case another goroutine is sending a reset signal too
@@ -152,8 +153,10 @@ func (p *Processor[K, T]) processLoop() {
 		r, ok = p.queue.Peek()
 		p.lock.Unlock()
 		if !ok {
+			verifPoint("loop.empty")
 			return
 		}
+		verifPoint("loop.peeked")
 
 		// Check if after obtaining the lock we have a stop or reset signals
 		// Do this before we create a timer
@@ -178,10 +181,12 @@ func (p *Processor[K, T]) processLoop() {
 			continue
 		}
 
+		verifPoint("loop.beforeTimer")
 		t = p.clock.NewTimer(deadline)
 		select {
 		// Wait for when it's time to execute the item
 		case <-t.C():
+			verifPoint("loop.timerFired")
 			p.execute(r)
 
 		// If we get a reset signal, restart the loop
@@ -218,5 +223,6 @@ func (p *Processor[K, T]) execute(r T) {
 		return
 	}
 
+	verifPoint("execute.popped")
 	p.executeFn(r)
 }
